@@ -16,6 +16,7 @@ package cluster
 //@    && (forall id string {s.nodes[id]} :: id in s.nodes ==> s.nodes[id] != nil && s.nodes[id].ID == id && allocated(s.nodes[id]) && allocated(s.nodes[id].Endpoints))
 //@    && s.nodes[s.localID].Status == NodeStatusActive
 //@    && (forall e string :: s.nodes[s.localID].Endpoints[e] >= 0)
+//@    && (forall id string {s.nodes[id]} :: id in s.nodes && id != s.localID ==> s.nodes[id].Endpoints == nil || s.nodes[id].Endpoints != s.nodes[s.localID].Endpoints)
 
 // counted(ep): the number of local upstreams the routing table records for ep.
 //@ pure localCount(s *State, ep string) int = s.nodes[s.localID].Endpoints[ep]
@@ -109,3 +110,91 @@ package cluster
 //@   opt implements github.com/andydunstall/piko/server/status.(Handler).Register
 //@   requires[group] group != nil
 //@   ensures[behind-group] grpAuth[group] && !old(gOpenRoute) ==> !gOpenRoute
+
+// ---- remote nodes (C04): the steps the gossip syncer drives --------------------------
+//
+// Step contracts of the routing-table operations on remote nodes: what each
+// does to the node named and that it touches nothing else.
+
+//@ noop (*State).addMetricsNode
+//@ noop (*State).removeMetricsNode
+//@ noop (*State).updateMetricsNode
+
+// epCount(n, e): the upstream count node n advertises for endpoint e (0 when absent).
+//@ pure epHas(n *Node, e string) bool = n.Endpoints != nil && e in n.Endpoints
+//@ pure epCount(n *Node, e string) int = epHas(n, e) ? n.Endpoints[e] : 0
+
+//@ contract RemoteEndpointSubscriber
+//@   trusted function-typed contract: what State requires of the callbacks registered with OnRemoteEndpointUpdate (none is registered outside tests)
+//@   requires[unlocked] !held(State.mu)
+
+//@ contract (*State).AddNode
+//@   serves C04 C20
+//@   requires[node] node != nil && allocated(node) && allocated(node.Endpoints)
+//@   requires[unshared] node.Endpoints == nil || node.Endpoints != s.nodes[s.localID].Endpoints
+//@   modifies entries(s.nodes)
+//@   ensures[added] node.ID != s.localID ==> node.ID in s.nodes && s.nodes[node.ID] == node
+//@   ensures[others] forall id string :: id != node.ID || id == s.localID ==> (id in s.nodes) == old(id in s.nodes) && s.nodes[id] == old(s.nodes[id])
+
+//@ contract (*State).RemoveNode
+//@   serves C04 C11 C20
+//@   modifies entries(s.nodes)
+//@   ensures[result] result == (id != s.localID && old(id in s.nodes))
+//@   ensures[removed] result ==> !(id in s.nodes)
+//@   ensures[others] forall o string :: o != id || !result ==> (o in s.nodes) == old(o in s.nodes) && s.nodes[o] == old(s.nodes[o])
+
+//@ contract (*State).UpdateRemoteStatus
+//@   serves C04 C11 C20
+//@   modifies s.nodes[id].Status
+//@   ensures[result] result == (id != s.localID && id in s.nodes)
+//@   ensures[status] result ==> s.nodes[id].Status == status
+//@   ensures[unchanged] !result ==> s.nodes[id].Status == old(s.nodes[id].Status)
+//@   ensures[nodes] s.nodes == old(s.nodes)
+
+//@ contract (*State).updateRemoteEndpointLocked
+//@   serves C04 C20
+//@   requires[guard] held(State.mu)
+//@   requires[inv] stInv(s)
+//@   modifies s.nodes[id].Endpoints, entries(s.nodes[id].Endpoints)
+//@   ensures[result] result == (id != s.localID && id in s.nodes)
+//@   ensures[count] result ==> epHas(s.nodes[id], endpointID) && s.nodes[id].Endpoints[endpointID] == listeners
+//@   ensures[others] forall e string :: e != endpointID || !result ==> epHas(s.nodes[id], e) == old(epHas(s.nodes[id], e)) && epCount(s.nodes[id], e) == old(epCount(s.nodes[id], e))
+//@   ensures[inv] stInv(s)
+
+//@ contract (*State).removeRemoteEndpointLocked
+//@   serves C04 C20
+//@   requires[guard] held(State.mu)
+//@   requires[inv] stInv(s)
+//@   modifies entries(s.nodes[id].Endpoints)
+//@   ensures[result] result == (id != s.localID && id in s.nodes)
+//@   ensures[gone] result ==> !epHas(s.nodes[id], endpointID)
+//@   ensures[others] forall e string :: e != endpointID || !result ==> epHas(s.nodes[id], e) == old(epHas(s.nodes[id], e)) && epCount(s.nodes[id], e) == old(epCount(s.nodes[id], e))
+//@   ensures[inv] stInv(s)
+
+//@ contract (*State).UpdateRemoteEndpoint
+//@   serves C04 C20
+//@   opt dyncall RemoteEndpointSubscriber
+//@   ensures[result] result == (id != s.localID && id in s.nodes)
+//@   ensures[count] result ==> epHas(s.nodes[id], endpointID) && s.nodes[id].Endpoints[endpointID] == listeners
+//@   ensures[others] forall e string :: e != endpointID || !result ==> epHas(s.nodes[id], e) == old(epHas(s.nodes[id], e)) && epCount(s.nodes[id], e) == old(epCount(s.nodes[id], e))
+//@   ensures[unlocked] !held(State.mu)
+//@   loop 1 invariant[unlocked] !held(State.mu)
+
+//@ contract (*State).RemoveRemoteEndpoint
+//@   serves C04 C20
+//@   opt dyncall RemoteEndpointSubscriber
+//@   ensures[result] result == (id != s.localID && id in s.nodes)
+//@   ensures[gone] result ==> !epHas(s.nodes[id], endpointID)
+//@   ensures[others] forall e string :: e != endpointID || !result ==> epHas(s.nodes[id], e) == old(epHas(s.nodes[id], e)) && epCount(s.nodes[id], e) == old(epCount(s.nodes[id], e))
+//@   ensures[unlocked] !held(State.mu)
+//@   loop 1 invariant[unlocked] !held(State.mu)
+
+//@ contract (*State).Node
+//@   serves C04 C20
+//@   ensures[known] result1 == (id in s.nodes)
+//@   ensures[copy] result1 ==> result0 != nil && fresh(result0)
+//@   opt frame true
+
+//@ contract (*State).LocalID
+//@   serves C04
+//@   ensures[id] result == s.localID
